@@ -72,6 +72,7 @@ fn main() {
                 "steps" => fndrv::steps(seed, n, &mut o),
                 "deltas" => fndrv::deltas(seed, n, &mut o),
                 "views" => fndrv::views(seed, n, &mut o),
+                "tfee" => fndrv::tfee(seed, n, &mut o),
                 "ticks" => fndrv::ticks(seed, get("stride", "64").parse().unwrap(), n, get("lo", "-443636").parse().unwrap(), get("hi", "443636").parse().unwrap(), &mut o),
                 _ => panic!("unknown fn driver {what}"),
             }
